@@ -6,6 +6,6 @@ From Coq Require Import ExtrOcamlBasic NArith.
 From KV Require Import Model.ConnMux Model.TransportPool.
 Extraction Language OCaml.
 Extraction "c06_model.ml"
-  wrap32 init step run thr outcome_code own_frame all_own set_inflight set_wire mon_conn_cut mon_batch_own mon_batch_acct mon_batch_serve
+  wrap32 init step run thr outcome_code own_frame all_own set_inflight set_wire mon_conn_cut mon_batch_own mon_batch_acct mon_batch_serve mon_all_served
   pinit pstep prun cn rq q_outcome q_own lookup_ord mon_ids mon_fail mon_delivery mon_cut mon_nohang mon_split mon_pure mon_recover split_results
   N.succ.  (* kvio.ml.in needs the type n *)
